@@ -14,6 +14,7 @@ From WebP Require Import Gen.Kernels Lib.ZBits Lib.Res Spec.YUV Model.Yuv Spec.A
   Proofs.C13_yuv Proofs.Alpha_unfilter Proofs.Still_glue.
 From WebP Require Model.Container Proofs.Container_simple.
 From WebP Require Lib.Arr Model.LosslessLib Model.Lossless Proofs.C04_bits Proofs.C01_top Proofs.C11_lossless.
+From WebP Require Spec.Container Model.ReadImage Proofs.Container_bytes Proofs.C01_top Proofs.ReadImage_base Proofs.ReadImage_container Proofs.ReadImage_vp8l Proofs.ReadImage_lossless Proofs.ReadImage_lossy Proofs.ReadImage_stillspec Proofs.ReadImage_wrap Proofs.ReadImage_safe Proofs.ReadImage_frame Proofs.ReadImage_anim.
 Import ListNotations.
 Open Scope Z_scope.
 
@@ -62,3 +63,66 @@ Module LL.
     end.
   Proof. exact decode_frame_buffer_and_schedule_independent. Qed.
 End LL.
+
+(* ---------------- read_image glue of decoder.rs (Model/ReadImage.v): buffer length, every byte written, wrappings agree ---------------- *)
+Module RI.
+  Import Lib.Res Lib.ZBits Spec.Container Spec.YUV Model.ReadImage Proofs.ReadImage_base Proofs.ReadImage_container Proofs.ReadImage_vp8l Proofs.ReadImage_lossless Proofs.ReadImage_lossy Proofs.ReadImage_stillspec Proofs.ReadImage_wrap Proofs.ReadImage_safe Proofs.ReadImage_frame Proofs.ReadImage_anim.
+
+  (* a buffer whose length is not output_buffer_size is rejected with ImageTooLarge and left untouched (every still layout) *)
+  Theorem wrong_length_view :
+    forall (vp8 : list Z -> res (Z * Z * list Z * list Z * list Z)) (c : container) (dec : Container_bytes.M.decoder) (buf : list Z),
+           still_view c dec -> len buf <> buffer_size c -> read_image vp8 dec buf = (Err EImageTooLarge, Some buf).
+  Proof. exact ReadImage_lossless.wrong_length_view. Qed.
+
+  (* lossless stills: every output byte is the specification pixel (RGBA, or RGB = alpha dropped), whatever the buffer held *)
+  Theorem read_image_lossless :
+    forall (vp8 : list Z -> res (Z * Z * list Z * list Z * list Z)) (c : container) (payload : list Z) (W h : Z) (pixels : list Z),
+           wf c = true ->
+           anim c = false ->
+           image_vp8l c = Some payload ->
+           dims c = (W, h) ->
+           V.decode_rgba payload = Some (W, h, pixels) ->
+           C01_top.codes_in_format payload ->
+           (forall s0 : V.stream, V.read_header (V.Stream [] payload) = Some (W, h, s0) -> C01_top.in_format W h s0) ->
+           exists dec : Container_bytes.M.decoder,
+             Container_bytes.M.new (serialize c) = Ok dec /\
+             (forall buf : list Z,
+              len buf = buffer_size c -> read_image vp8 dec buf = (Ok tt, Some (if alpha c then pixels else Still.drop_alpha pixels))) /\
+             (forall buf : list Z, len buf <> buffer_size c -> read_image vp8 dec buf = (Err EImageTooLarge, Some buf)).
+  Proof. exact ReadImage_lossless.read_image_lossless. Qed.
+
+  (* the same VP8L payload as simple file or VP8X still (alpha flag clear or set) gives the same pixels, modulo the dropped alpha byte *)
+  Theorem lossless_wrappings_agree :
+    forall (vp8 : list Z -> res (Z * Z * list Z * list Z * list Z)) (payload : list Z) (W h : Z) (pixels : list Z),
+           V.decode_rgba payload = Some (W, h, pixels) ->
+           C01_top.codes_in_format payload ->
+           (forall s0 : V.stream, V.read_header (V.Stream [] payload) = Some (W, h, s0) -> C01_top.in_format W h s0) ->
+           forall c : container,
+           wf c = true ->
+           anim c = false ->
+           image_vp8l c = Some payload ->
+           dims c = (W, h) ->
+           exists dec : Container_bytes.M.decoder,
+             Container_bytes.M.new (serialize c) = Ok dec /\
+             (forall buf : list Z, len buf = buffer_size c -> read_image vp8 dec buf = (Ok tt, Some (render (alpha c) pixels))).
+  Proof. exact ReadImage_wrap.lossless_wrappings_agree. Qed.
+
+  (* the same VP8 payload as simple file or VP8X still gives the same pixels *)
+  Theorem lossy_wrappings_agree :
+    forall (vp8 : list Z -> res (Z * Z * list Z * list Z * list Z)) (payload : list Z) (w h : Z) (yp up vp : list Z),
+           vp8 payload = Ok (w, h, yp, up, vp) ->
+           planes_ok w h yp up vp ->
+           forall (c : container) (px : list Z),
+           wf c = true ->
+           anim c = false ->
+           image_vp8 c = Some payload ->
+           dims c = (w, h) ->
+           lossy_pixels c w h yp up vp = Some px ->
+           alph_ok_for c w h ->
+           (if alpha c then Still.drop_alpha px else px) = rgb_plane (Z.to_nat w) (Z.to_nat h) yp up vp /\
+           (exists dec : Container_bytes.M.decoder,
+              Container_bytes.M.new (serialize c) = Ok dec /\
+              (forall buf : list Z, len buf = buffer_size c -> read_image vp8 dec buf = (Ok tt, Some px))).
+  Proof. exact ReadImage_wrap.lossy_wrappings_agree. Qed.
+
+End RI.
